@@ -371,7 +371,7 @@ class Encode(Harness):
                 v["us"] = ms * 1000
             else:
                 v["us"] = 0
-            if self.tz == "offset":
+            if self.tz in ("offset", "zone"):
                 v["off"] = S("off", -14 * 60, 14 * 60)
         return v
 
@@ -385,6 +385,10 @@ class Encode(Harness):
                 tz = _dt.timezone(_dt.timedelta(minutes=off))
             else:
                 tz = cm.SymTz(cm.SymTimedelta(off))
+        elif self.tz == "zone":
+            # a zone whose offset depends on the date (zoneinfo and the like): utcoffset(None) is None
+            off = v["off"]
+            tz = cm.Zone(off) if isinstance(off, int) else cm.SymZone(cm.SymTimedelta(off))
         if not any(sym(x) for x in v.values()):
             if self.k == "date":
                 return _dt.date(v["year"], v["month"], v["day"])
@@ -456,9 +460,9 @@ def obligations(tier):
     for d in ("PVL", "ODL", "PDS3", "ISIS"):
         obs.append(Encode(dialect=d, k="date", tz="naive", us="zero"))
         for k in ("time", "datetime"):
-            for tz in ("naive", "utc", "offset"):
+            for tz in ("naive", "utc", "offset", "zone"):
                 for us in ("zero", "ms", "any"):
-                    if quick and tz == "offset" and us == "any":
+                    if quick and tz in ("offset", "zone") and us == "any":
                         continue      # every-microsecond x every-offset is a thorough-tier obligation (solver time)
                     obs.append(Encode(dialect=d, k=k, tz=tz, us=us))
         if d == "PDS3":
